@@ -1,9 +1,8 @@
 /-
-Lemmas for C19 (ordering): `Ord for Terminal` walks two display trees in lock step.  With the
-number of children compared at every node (patched code) the walk is the lexicographic order of
-the pre-order TOKEN sequences, which is a lawful total order and — by the prefix code lemma —
-`Equal` exactly on identical trees.  Without it (current code) the walk can fall out of step:
-`Equal` on different trees, or `unreachable!`.
+Lemmas for C19 (ordering): `Ord for Terminal` walks two display trees in lock step.  Since the
+number of children is compared at every node, the walk is the lexicographic order of the
+pre-order TOKEN sequences, which is a lawful total order and — by the prefix code lemma —
+`Equal` exactly on identical trees; the two walks never fall out of step (no `unreachable!`).
 -/
 import MsVerif.Lemmas.CmpEq
 
@@ -217,7 +216,7 @@ theorem dpre_eq (d : DNode) : dpre d = d :: (kids d).flatMap dpre := by
 
 /-! ## tokens -/
 
-/-- what the patched `cmp` reads from a display node: for `Node` the fragment name and the
+/-- what `cmp` reads from a display node: for `Node` the fragment name and the
 number of children -/
 inductive Tok where
   | node (name : FragName) (n : Nat)
@@ -410,7 +409,7 @@ structure LawfulAtoms (o : AtomOrd) : Prop where
   rawPkh : LawfulCmp o.rawPkh
   hash : ∀ kind, LawfulCmp (o.hash kind)
 
-/-- total order on tokens: same variant ⇒ what the patched `cmp` computes; different variants
+/-- total order on tokens: same variant ⇒ what `cmp` computes; different variants
 (never compared by a lock-step walk) ⇒ by variant -/
 def tokCmp (o : AtomOrd) : Tok → Tok → Ordering
   | .node n1 k1, .node n2 k2 => (natCmp n1.rank n2.rank).then (natCmp k1 k2)
@@ -488,25 +487,25 @@ theorem tokCmp_lawful (o : AtomOrd) (ho : LawfulAtoms o) : LawfulCmp (tokCmp o) 
 
 /-! ## the lock-step walk -/
 
-theorem dnodeCmpFixed_same (o : AtomOrd) (x y : DNode) (h : kind x = kind y) :
-    dnodeCmpFixed o x y = .ok (tokCmp o (tok x) (tok y)) := by
+theorem dnodeCmp_same (o : AtomOrd) (x y : DNode) (h : kind x = kind y) :
+    dnodeCmp o x y = .ok (tokCmp o (tok x) (tok y)) := by
   cases x <;> cases y <;> simp [kind, tok, Tok.kind] at h <;>
     try (have := idx_lt ‹HashKind›; omega)
-  case node.node t u => simp [dnodeCmpFixed, tokCmp, tok, fragCmp, kids]
+  case node.node t u => simp [dnodeCmp, tokCmp, tok, fragCmp, kids]
   case hash.hash k1 a k2 b =>
     have := idx_inj _ _ h; subst this
-    simp [dnodeCmpFixed, dnodeCmp, tokCmp, tok]
-  all_goals simp [dnodeCmpFixed, dnodeCmp, tokCmp, tok]
+    simp [dnodeCmp, tokCmp, tok]
+  all_goals simp [dnodeCmp, tokCmp, tok]
 
 theorem flat_cons (x : DNode) (ra : List DNode) :
     (x :: ra).flatMap dpre = x :: (kids x ++ ra).flatMap dpre := by
   simp [List.flatMap_cons, dpre_eq x, List.flatMap_append]
 
-/-- on stacks with the same variants position by position, the patched loop never reaches
+/-- on stacks with the same variants position by position, the loop never reaches
 `unreachable!` and computes the lexicographic order of the token sequences -/
 theorem cmpZip_lockstep (o : AtomOrd) (ho : LawfulAtoms o) :
     ∀ (n : Nat) (sa sb : List DNode), (sa.flatMap dpre).length ≤ n → sa.map kind = sb.map kind →
-      cmpZip (dnodeCmpFixed o) (sa.flatMap dpre) (sb.flatMap dpre) =
+      cmpZip (dnodeCmp o) (sa.flatMap dpre) (sb.flatMap dpre) =
         .ok (lexCmp (tokCmp o) ((sa.flatMap dpre).map tok) ((sb.flatMap dpre).map tok)) := by
   intro n
   induction n with
@@ -529,7 +528,7 @@ theorem cmpZip_lockstep (o : AtomOrd) (ho : LawfulAtoms o) :
       | cons y ys =>
         simp only [List.map_cons, List.cons.injEq] at hk
         rw [flat_cons x xs, flat_cons y ys] at *
-        simp only [cmpZip, List.map_cons, lexCmp, dnodeCmpFixed_same o x y hk.1]
+        simp only [cmpZip, List.map_cons, lexCmp, dnodeCmp_same o x y hk.1]
         cases hc : tokCmp o (tok x) (tok y) with
         | lt => rfl
         | gt => rfl
@@ -577,7 +576,7 @@ theorem displayPreOrder_eq (t : Ms) : t.displayPreOrder = dpreMs t := by
   simp only [List.flatMap_cons, List.flatMap_nil, List.append_nil, dpre]
   exact List.take_of_length_le (dpreMs_le t)
 
-/-! ## the patched `cmp` -/
+/-! ## `cmp` is the lexicographic token order -/
 
 /-- the token sequence of a miniscript -/
 def toks (a : Ms) : List Tok := (dpreMs a).map tok
@@ -586,9 +585,9 @@ theorem dpreMs_head (a : Ms) : ∃ rest, dpreMs a = .node a :: rest := by
   have := dpre_eq (.node a)
   exact ⟨_, this⟩
 
-theorem msCmpFixed_eq_lex (o : AtomOrd) (ho : LawfulAtoms o) (a b : Ms) :
-    msCmpFixed o a b = .ok (lexCmp (tokCmp o) (toks a) (toks b)) := by
-  unfold msCmpFixed toks
+theorem msCmp_eq_lex (o : AtomOrd) (ho : LawfulAtoms o) (a b : Ms) :
+    msCmp o a b = .ok (lexCmp (tokCmp o) (toks a) (toks b)) := by
+  unfold msCmp toks
   rw [displayPreOrder_eq, displayPreOrder_eq]
   have hl := cmpZip_lockstep o ho _ [.node a] [.node b] (Nat.le_refl _) (by simp [kind, tok, Tok.kind])
   simp only [List.flatMap_cons, List.flatMap_nil, List.append_nil, dpre] at hl
@@ -612,85 +611,6 @@ theorem toks_inj (a b : Ms) (h : toks a = toks b) : a = b := by
     (by simp only [List.flatMap_cons, List.flatMap_nil, List.append_nil, dpre]
         unfold toks at h; rw [h]; exact List.prefix_refl _)
   simpa using this
-
-/-! ## the current `cmp` on trees without n-ary nodes -/
-
-def isNary : Ms → Bool
-  | .thresh _ _ | .multi _ _ | .sortedMulti _ _ | .multiA _ _ | .sortedMultiA _ _ => true
-  | _ => false
-
-def isNaryName : FragName → Bool
-  | .thresh | .multi | .sortedmulti | .multi_a | .sortedmulti_a => true
-  | _ => false
-
-/-- for every other fragment name the number of display children is fixed -/
-def nameArity : FragName → Nat
-  | .one | .zero => 0
-  | .and_v | .and_n | .and_b | .or_b | .or_d | .or_c | .or_i => 2
-  | .andor => 3
-  | _ => 1
-
-theorem isNary_name (t : Ms) : isNaryName t.fragName = isNary t := by
-  cases t <;> simp [Ms.fragName, isNaryName, isNary]
-  case hash hk h => cases hk <;> simp [FragName.ofHash]
-  case check sub => cases sub <;> simp
-  case andV l r => by_cases h : r.isTrue = true <;> simp [h]
-  case orI l r => by_cases h1 : l.isFalse = true <;> by_cases h2 : r.isFalse = true <;> simp [h1, h2]
-  case andOr a b c => by_cases h : c.isFalse = true <;> simp [h]
-
-theorem kids_len_of_name (t : Ms) (h : isNary t = false) :
-    (kids (.node t)).length = nameArity t.fragName := by
-  cases t <;> simp [isNary] at h <;>
-    simp [kids, DNode.asNode, Tree.children, Ms.fragName, nameArity]
-  case hash hk h => cases hk <;> simp [FragName.ofHash]
-  case check sub => cases sub <;> simp [Tree.children]
-  case andV l r => by_cases h : r.isTrue = true <;> simp [h, Tree.children]
-  case orI l r =>
-    by_cases h1 : l.isFalse = true <;> by_cases h2 : r.isFalse = true <;> simp [h1, h2, Tree.children]
-  case andOr a b c => by_cases h : c.isFalse = true <;> simp [h, Tree.children]
-
-def naryFreeNode : DNode → Bool
-  | .node t => !isNary t
-  | _ => true
-
-theorem dnodeCmp_eq_fixed (o : AtomOrd) (x y : DNode) (h : naryFreeNode x = true) :
-    dnodeCmp o x y = dnodeCmpFixed o x y := by
-  cases x <;> cases y <;> simp [dnodeCmpFixed]
-  case node.node t u =>
-    simp only [naryFreeNode, Bool.not_eq_true'] at h
-    simp only [dnodeCmp]
-    cases hc : fragCmp t u with
-    | lt => simp [Ordering.then]
-    | gt => simp [Ordering.then]
-    | eq =>
-      unfold fragCmp at hc
-      have hn := rank_inj _ _ ((natCmp_eq _ _).1 hc)
-      have hu : isNary u = false := by rw [← isNary_name, ← hn, isNary_name, h]
-      have l1 := kids_len_of_name t h
-      have l2 := kids_len_of_name u hu
-      simp only [kids] at l1 l2
-      simp [Ordering.then, l1, l2, hn, (natCmp_eq _ _).2 rfl]
-
-theorem cmpZip_congr (c1 c2 : DNode → DNode → Except Panic Ordering) :
-    ∀ (la lb : List DNode), (∀ x ∈ la, ∀ y, c1 x y = c2 x y) → cmpZip c1 la lb = cmpZip c2 la lb
-  | [], _, _ => by simp [cmpZip]
-  | _ :: _, [], _ => by simp [cmpZip]
-  | x :: la, y :: lb, h => by
-    simp only [cmpZip, h x (by simp) y]
-    rw [cmpZip_congr c1 c2 la lb (fun a ha => h a (by simp [ha]))]
-
-/-- no `thresh` / `multi` / `sortedmulti` / `multi_a` / `sortedmulti_a` node in the display tree -/
-def naryFree (a : Ms) : Bool := (dpreMs a).all naryFreeNode
-
-theorem msCmp_eq_fixed (o : AtomOrd) (a b : Ms) (h : naryFree a = true) :
-    msCmp o a b = msCmpFixed o a b := by
-  unfold msCmp msCmpFixed
-  rw [displayPreOrder_eq, displayPreOrder_eq]
-  rw [cmpZip_congr (dnodeCmp o) (dnodeCmpFixed o) (dpreMs a) (dpreMs b)]
-  intro x hx y
-  apply dnodeCmp_eq_fixed
-  simp only [naryFree, List.all_eq_true] at h
-  exact h x hx
 
 /-- decidable equality of outcomes (for `decide` on concrete witnesses) -/
 instance instDecEqOutcome {ε α : Type} [DecidableEq ε] [DecidableEq α] : DecidableEq (Except ε α) :=
